@@ -1,9 +1,9 @@
 SPECIFICATION Spec
 CONSTANTS
   MaxDepth = 4
-  NNames = 7
-  NVals = 3
-  NInits = 4
-  EmitMod = 5000
+  NNames = 4
+  NVals = 2
+  NInits = 2
+  EmitMod = 400
 INVARIANTS TypeOk RoundTrip RoundTripCtor StepOk ObserversOk IterOk EmitBehaviour
 CHECK_DEADLOCK FALSE
